@@ -494,7 +494,7 @@ int main (void)
   {
     const char *v; int i; uint64_t a, b;
     const char *op = l.w[0];
-    if (!strcmp (op, "case")) { reset_all (); out ("case %s", l.n > 1 ? l.w[1] : "-"); continue; }
+    if (!strcmp (op, "case")) { reset_all (); out ("case %s", l.n > 1 ? l.w[1] : "-"); fflush (stdout); continue; }
     if (!strcmp (op, "cfg"))
     {
       for (i = 1; i < l.n; i++)
@@ -609,7 +609,7 @@ int main (void)
         { conns[i].resume_in = -1; out ("resume c=%d", i); MHD_resume_connection (conns[i].mc); any = 1; }
       if (any && !threaded ()) { one_round (); one_round (); }
       else if (any) usleep (50000);
-      drain_clients (); MHD_stop_daemon (d); d = NULL; drain_clients (); out ("stopped");
+      drain_clients (); MHD_stop_daemon (d); d = NULL; drain_clients (); out ("stopped"); fflush (stdout);
       for (i = 0; i < MAXRESP; i++) if (freecb_count[i]) out ("free-cb-total rid=%d n=%d", i, freecb_count[i]);
       continue; }
     out ("bad-op");
